@@ -164,8 +164,13 @@ impl<T: FileReader> RVParser<T> {
                 }
                 Err(x) => match x {
                     LexError::Expected(ex, got) => {
+                        // If the offending token is the end of the line, the line has
+                        // already been consumed: skipping further would lose the next one
+                        let at_end_of_line = *got == TokenType::Newline;
                         parse_errors.push(ParseError::Expected(ex, got));
-                        self.recover_from_parse_error();
+                        if !at_end_of_line {
+                            self.recover_from_parse_error();
+                        }
                     }
                     LexError::IsNewline(_) => {}
                     LexError::UnexpectedToken(got) => {
